@@ -369,9 +369,14 @@ def evaluate_arithmetic(op, lval, rval):
         return lval
     if isinstance(rval, error.XLError):
         return rval
-    if isinstance(lval, list) and isinstance(rval, list) and len(lval) == 1 and len(rval) != 1:
-        # a one-element array acts as its element on the left too (as adapt_value does on the right)
-        return evaluate_arithmetic(op, lval[0], rval)
+    if isinstance(lval, list) and isinstance(rval, list):
+        # a one-element array acts as its element, on either side and at any nesting depth
+        if len(lval) == 1 and len(rval) == 1:
+            return [evaluate_arithmetic(op, lval[0], rval[0])]
+        if len(lval) == 1:
+            return evaluate_arithmetic(op, lval[0], rval)
+        if len(rval) == 1:
+            return evaluate_arithmetic(op, lval, rval[0])
     if isinstance(lval, list):
         return OPERATOR_DICT[op](ExcelArrayOps(lval), rval)
     if isinstance(rval, list):
